@@ -46,6 +46,12 @@ T = {
  "C20": ("Generated altitudes/speeds/Mach numbers and coordinate pairs (tropopause, sea level, antipodal, polar, antimeridian): ISA against an independent implementation and tabulated rows, inverse pairs, strict monotonicity, sea-level identities, orderings, haversine agreement, scalar/array metamorphic relation.",
          "ref/isa.py; compressible round trips judged at 1e-6 relative.",
          "property-based testing (Hypothesis): differential against a reference ISA, round-trip and metamorphic relations"),
+ "C12": ("Five generated relations: totality/EMPTY/DF17 map on arbitrary frames; infer == sorted join of the accepting predicates on DF20/21; completeness on register contents built field by field inside the envelope (boundaries included, IAS derived from Mach through an independent ISA for DF20); soundness with exactly one status/reserved/format rule broken; is50or60 arbitration on payloads satisfying both layouts by construction against independently computed velocity-vector distances.",
+         "reference rules ref/registers.py (Doc 9871 layouts + the envelope quoted in the property); out-of-envelope and sign-bit-only payloads are not judged.",
+         "property-based testing (Hypothesis) with constructive generators against reference format rules"),
+ "C14": ("Exhaustive cell table DF x TC x 3-bit subtype with zero/one/random payloads; every public decoder, dispatcher, helper, uplink function and tell() called on each cell; outcome compared with a guard table written from the docstrings (value vs RuntimeError), a shape table, and the by-type-code routing of the dispatchers (also on pairs of cells).",
+         "guard/shape tables in checks/c14.py; functions without a documented restriction are only required to return or raise RuntimeError.",
+         "exhaustive cell enumeration with random payloads against a guard/shape table"),
  "C03": ("Generated even/odd airborne pairs from an independent DO-260B reference encoder, dense at every NL transition, pole, equator and antimeridian, all time and argument orders; decoded result compared with the encoded position of the newer frame.",
          "ref/cpr.py (encoder, NL table cross-checked with the printed DO-260B values); tolerance one quantisation step as the property states.",
          "property-based testing (Hypothesis), round trip through a reference CPR encoder"),
